@@ -14,6 +14,9 @@ PATTERNS = {
     "up": (-INF, 1.5, 0.25, 1.5, 2.5),
     "wide": (-2.0, 3.0, 1.0, -2.0, 4.0),
     "narrow": (0.25, 0.75, 0.5, 0.25, 1.5),
+    # non-dyadic end points: the affine scaling map does not round-trip exactly
+    "oddw": (0.1, 0.7, 0.3, 0.1, 1.5),
+    "oddn": (-0.8, 0.3, 0.1, 0.3, -1.5),
     "fixed": (0.5, 0.5, 0.5, 0.5, 2.0),
     "fixulp": (0.5, float(np.nextafter(0.5, 1.0)), 0.5, 0.5, -1.0),
 }
@@ -74,6 +77,7 @@ def objective(kind, n, nan=None):
 
 
 NAN_REGIONS = {
+    "everywhere": {"type": "halfspace", "i": 0, "t": -1e30, "side": 1},
     "half": {"type": "halfspace", "i": 0, "t": 0.875, "side": 1},
     "outball": {"type": "outball", "c": [0.5, 0.5, 0.5, 0.5, 0.5], "r2": 4.0},
     "inball": {"type": "inball", "c": [0.75, -0.25, 1.25, 0.5, -0.75], "r2": 0.015625},
